@@ -45,6 +45,8 @@ namespace K
 @[simp] theorem lit_20 : (20.0 : ℝ) = 20 := by norm_num
 @[simp] theorem lit_60 : (60.0 : ℝ) = 60 := by norm_num
 @[simp] theorem lit_1e9 : (1000000000.0 : ℝ) = 1000000000 := by norm_num
+@[simp] theorem lit_1_5 : (1.5 : ℝ) = 3 / 2 := by norm_num
+@[simp] theorem lit_2_5 : (2.5 : ℝ) = 5 / 2 := by norm_num
 
 @[simp] theorem r32_real (x : ℝ) : KOps.r32 x = x := rfl
 @[simp] theorem sqrt_real (x : ℝ) : KOps.sqrt x = Real.sqrt x := rfl
